@@ -453,6 +453,200 @@ def vacuity_of_edges(configs, edges):
 
 
 # ---------------------------------------------------------------------------------------------------------------------
+# 3. code -> spec: random walks on the real objects, validated by TLC against Restart_trace.tla
+WALK_MODES = ("mixed", "resubmission-storm", "listed", "success-in-the-middle")
+
+
+def pick_reason(rng, mode, cfg, nsteps):
+    if mode == "resubmission-storm":
+        return "SubmissionFailed" if rng.random() < 0.9 else rng.choice(REASONS)
+    if mode == "listed" and cfg["restartOn"]:
+        return rng.choice(cfg["restartOn"]) if rng.random() < 0.8 else rng.choice(REASONS)
+    if mode == "success-in-the-middle":
+        if rng.random() < 0.25:
+            return "Success"
+        return "SubmissionFailed" if rng.random() < 0.6 else rng.choice(cfg["restartOn"] or REASONS)
+    return rng.choice(REASONS)
+
+
+def record_walk(W, world, cfg, rng, maxlen):
+    """Drive the real component with random events; the specification is NOT consulted. -> list of logged steps"""
+    inst = W.Instance(world, cfg["id"])
+    mode = rng.choice(WALK_MODES)
+    good = ("possible", "true", "hookNotAvailable", "junkStr", "none", "raisesIOError")
+    steps, refused, late = [], 0, False
+    while len(steps) < maxlen:
+        runs_before = inst.runs
+        if inst.engine.isAlive():
+            reason = pick_reason(rng, mode, cfg, len(steps))
+            inst.exit(reason)
+            obs = inst.observe()
+            st = {"act": "Exit", "reason": reason, "answer": "na"}
+        elif inst.engine.isShutdown:
+            if late:
+                break
+            late = True
+            reason = inst.engine.exitReason()
+            obs = inst.late_restart(reason)
+            st = {"act": "LateRestart", "reason": reason, "answer": "na"}
+        else:
+            answer = rng.choice(good) if rng.random() < 0.6 else rng.choice(ANSWERS)
+            if cfg["entry"] == "controller":
+                obs = inst.post_mortem(answer)
+                st = {"act": "PostMortem", "reason": "na", "answer": answer}
+            else:
+                obs = inst.direct(answer)
+                st = {"act": "Direct", "reason": "na", "answer": answer}
+                refused = refused + 1 if not obs["alive"] else 0
+                if refused > 3:
+                    steps.append(dict(st, **project(obs, runs_before)))
+                    break
+        steps.append(dict(st, **project(obs, runs_before)))
+    return mode, steps
+
+
+def project(obs, runs_before):
+    return {"code": obs["code"], "ran": obs["runs"] > runs_before, "hook": obs["hookCalls"] > 0, "restarts": obs["restarts"],
+            "resub": obs["resub"], "alive": obs["alive"], "final": obs["final"], "runs": obs["runs"]}
+
+
+def tla_bool(b):
+    return "TRUE" if b else "FALSE"
+
+
+def tla_step(s):
+    return ('[act |-> "%s", reason |-> "%s", answer |-> "%s", code |-> "%s", ran |-> %s, hook |-> %s, restarts |-> %d, '
+            'resub |-> %d, alive |-> %s, final |-> "%s"]' % (s["act"], s["reason"], s["answer"], s["code"], tla_bool(s["ran"]),
+                                                              tla_bool(s["hook"]), s["restarts"], s["resub"],
+                                                              tla_bool(s["alive"]), s["final"]))
+
+
+def validate_traces(chk, tier, traces, name=None):
+    """traces: list of (cfg, steps). One TLC run; -> list of verdicts dict(ok, explained, failing_at, failing, dev)"""
+    name = name or "Restart_traces_%s" % tier
+    body = "---- MODULE %s ----\nEXTENDS Restart_trace\nMCConfigs == {}\nMCAllDeviations == AllDeviations\nMCTraces == <<\n" % name
+    body += ",\n".join("  [c |-> %s,\n   steps |-> <<%s>>]" % (tla_config(c), ",\n      ".join(tla_step(s) for s in st))
+                       for c, st in traces)
+    body += "\n>>\n====\n"
+    os.makedirs(GEN, exist_ok=True)
+    with open(os.path.join(GEN, name + ".tla"), "w") as f:
+        f.write(body)
+    cfgp = write_cfg(name, "CONSTANTS\n  Configs <- MCConfigs\n  MaxRuns = 0\n  MaxCount = 0\n  Deviations <- MCAllDeviations\n"
+                           "  Emit = FALSE\n  Traces <- MCTraces\nINIT TraceInit\nNEXT TraceNext\nINVARIANT TraceEmit\n"
+                           "CHECK_DEADLOCK FALSE\n")
+    r = run_tlc(name, cfgp, workers=1, timeout=1500)
+    if not r["ok"]:
+        raise MachineryError("trace validation run failed:\n%s" % r["out"][-2500:])
+    chk.add_tlc(r)
+    reached = {}
+    for c in r["cases"]:
+        reached.setdefault(c["tid"], {})[c["pos"]] = c
+    verdicts = []
+    for t, (cfg, steps) in enumerate(traces, 1):
+        got = reached.get(t, {})
+        if 0 not in got:
+            raise MachineryError("trace %d was not started by TLC" % t)
+        explained = max(got)
+        v = {"explained": explained, "len": len(steps), "failing_at": None, "failing": [], "dev": "none"}
+        dev = "none"
+        for p in range(0, explained + 1):
+            if dev == "none" and got[p]["dev"] != "none":
+                dev = got[p]["dev"]
+            if got[p]["failing"]:
+                v.update(failing_at=p, failing=sorted(got[p]["failing"]), dev=dev)
+                break
+        verdicts.append(v)
+    return verdicts
+
+
+def walk_step_class(cfg, steps, i):
+    st = steps[i]
+    pre = "trace:%s:%s" % (cfg["entry"], cfg["kind"])
+    if st["act"] == "Exit":
+        return pre + ":exit-bookkeeping"
+    if st["act"] == "LateRestart":
+        return pre + ":restart-after-final-state"
+    last = next((s["reason"] for s in reversed(steps[:i]) if s["act"] == "Exit"), "none")
+    if last == "SubmissionFailed":
+        return pre + ":resubmission"
+    if last in cfg["restartOn"]:
+        return pre + ":listed-reason"
+    if last in ("Killed", "Cancelled"):
+        return pre + ":killed-or-cancelled"
+    return pre + ":reason-not-listed"
+
+
+def brief_steps(steps):
+    out = []
+    for s in steps:
+        if s["act"] == "Exit":
+            out.append("exit:" + s["reason"])
+        elif s["act"] == "LateRestart":
+            out.append("late")
+        else:
+            out.append("%s:%s>%s" % ("pm" if s["act"] == "PostMortem" else "restart", s["answer"],
+                                     s["code"].replace("Restart", "")))
+    return "[" + " ".join(out) + "]"
+
+
+def judge_traces(chk, traces, verdicts):
+    for (cfg, steps), v in zip(traces, verdicts):
+        chk.trace_validated(1)
+        if v["explained"] < v["len"]:
+            i = v["explained"]
+            chk.violation(walk_step_class(cfg, steps, i),
+                          "%s: step %d of the recorded run %s is not a step of Restart.tla (observed %s)" % (
+                              describe(cfg), i + 1, brief_steps(steps[:i + 1]), steps[i]),
+                          {"kind": "trace", "cfg": cfg, "steps": steps[:i + 1]})
+        elif v["failing_at"] is not None:
+            i = v["failing_at"]
+            key = DEV_KEY.get(v["dev"], "trace-invariant:" + "+".join(v["failing"]))
+            chk.violation(key, "%s: after the recorded run %s the C12 predicate(s) %s are false (Engine.restarts=%s, "
+                               "resubmissions=%s, task starts=%s)" % (describe(cfg), brief_steps(steps[:i]), v["failing"],
+                                                                     steps[i - 1]["restarts"], steps[i - 1]["resub"],
+                                                                     steps[i - 1]["runs"]),
+                          {"kind": "trace", "cfg": cfg, "steps": steps[:i]})
+
+
+def random_traces(chk, tier, configs, scratch):
+    from .. import world_c12 as W
+    from ..common import seed
+    rng = random.Random(seed() * 7919 + 12)
+    n = 400 if tier == "quick" else 4000
+    worlds, where = [], {}
+    try:
+        for (sim, default_hook), cs in sorted(group_worlds(configs).items()):
+            # a slice of every group is enough for the walks
+            cs = [c for i, c in enumerate(cs) if tier == "quick" or i % 4 == 0][:150]
+            w = W.World(scratch, cs, default_hook)
+            worlds.append(w)
+            for c in cs:
+                where[c["id"]] = w
+        ids = sorted(where)
+        byid = {c["id"]: c for c in configs}
+        traces = []
+        for _ in range(n):
+            cfg = byid[rng.choice(ids)]
+            mode, steps = record_walk(W, where[cfg["id"]], cfg, rng, 26)
+            traces.append((cfg, steps))
+    finally:
+        for w in worlds:
+            w.close()
+    verdicts = validate_traces(chk, tier, traces)
+    judge_traces(chk, traces, verdicts)
+    # self-test of the binding: a corrupted log must be rejected at the corrupted step
+    cfg, steps = next((c, s) for c, s in traces if len(s) >= 4)
+    bad = [dict(x) for x in steps]
+    bad[2]["restarts"] += 1
+    v = validate_traces(chk, tier, [(cfg, bad)], name="Restart_traces_selftest")[0]
+    if v["explained"] != 2:
+        raise MachineryError("self-test: a corrupted trace was accepted up to step %d (expected rejection at 3)" % v["explained"])
+    chk.sample({"recorded_run": brief_steps(traces[0][1]), "cfg": describe(traces[0][0])}, limit=6)
+    return {"traces": len(traces), "trace_steps": sum(len(s) for _, s in traces),
+            "longest_resubmission_run": max(s["resub"] for _, st in traces for s in st)}
+
+
+# ---------------------------------------------------------------------------------------------------------------------
 def run(tier):
     chk = Check(PID, tier)
     configs = config_family(tier)
@@ -460,6 +654,7 @@ def run(tier):
     edges = tlc_edges(chk, tier, configs)
     vacuity_of_edges(configs, edges)
     stats = replay_edges(chk, configs, edges, chk.scratch)
+    stats.update(random_traces(chk, tier, configs, chk.scratch))
     chk.cov["c12"] = dict(stats, configurations=len(configs))
     chk.cov["rule"] = ("every edge (configuration, Engine.restarts, resubmission counter, last exit reason, event) of the "
                        "state graph of Restart.tla for the configuration family, restarts <= 6; distinct = distinct "
